@@ -642,7 +642,15 @@ fn link_cases(args: &Args, rng: &mut Rng) -> Vec<LinkCase> {
             for a in actions {
                 let f = Fault { side: *side, ctype: *ct, ordinal: *ord, action: a };
                 let tsn = if (wi + *ord as usize + *ct as usize) % 2 == 0 { None } else { Some(0xFFFF_FFFE) };
-                v.push(LinkCase { name: format!("single-{}", f.text()), case: mk_case(&wl[wi], vec![f], tsn) });
+                let mut case = mk_case(&wl[wi], vec![f.clone()], tsn);
+                // faults on setup chunks: the server sends too, and picks its own initial TSN (unseeded): what a duplicate or
+                // late INIT / COOKIE-ECHO does to the *server's* sender state shows in the B→A delivery
+                if [1u8, 2, 10, 11].contains(ct) {
+                    case.cfg[1].seed_tsn = None;
+                    case.msgs.push(Msg { side: 1, chan: 1, data: payload(1, 1, 0, 500), phase: 0, task: 0 });
+                    case.msgs.push(Msg { side: 1, chan: 1, data: payload(1, 1, 1, 2500), phase: 1, task: 0 });
+                }
+                v.push(LinkCase { name: format!("single-{}", f.text()), case });
             }
         }
     }
@@ -708,6 +716,11 @@ fn link_cases(args: &Args, rng: &mut Rng) -> Vec<LinkCase> {
                 case: mk_case(&wl[6], vec![singles[i].clone(), singles[j].clone()], if (i + j) % 2 == 0 { None } else { Some(0xFFFF_FFFC) }) });
         } }
     }
+    // the server as the sender: the directed / flow-control / stale-SACK / long-idle cases with the roles exchanged
+    let mirrored: Vec<LinkCase> = v.iter().enumerate().filter(|(i, c)| (c.name.starts_with("directed") || c.name.starts_with("flow-control") || c.name.starts_with("long-idle")
+            || c.name.starts_with("clean") || (c.name.starts_with("stale-gap") && (args.tier_thorough || i % 8 == 0))))
+        .map(|(_, c)| LinkCase { name: format!("m-{}", c.name), case: mirror(&c.case) }).collect();
+    v.extend(mirrored);
     // random multi-fault histories
     let nrand = if args.tier_thorough { 2000 } else { 40 };
     for k in 0..nrand {
